@@ -52,6 +52,13 @@ func (fe *FnExec) execInstr(fr *frame, st *State, in ssa.Instruction) {
 		fe.store(st, p, fe.val(x.Val))
 	case *ssa.UnOp:
 		fe.regs[x] = fe.doUnOp(fr, st, x)
+		if x.Op == token.MUL {
+			if rec := fe.guardPtr[x.X]; rec != nil {
+				if t := termOf(fe.regs[x]); t != "0" {
+					fe.guardedVals[t] = rec
+				}
+			}
+		}
 	case *ssa.BinOp:
 		fe.regs[x] = fe.doBinOp(fr, st, x)
 	case *ssa.Call:
@@ -72,6 +79,19 @@ func (fe *FnExec) execInstr(fr *frame, st *State, in ssa.Instruction) {
 			fe.regs[x] = PtrV{Cell: p.Cell, Path: append(append([]int(nil), p.Path...), x.Field), Pointee: f.Type()}
 		} else {
 			fe.regs[x] = PtrV{Base: p.Base, Prefix: p.Prefix + "." + f.Name(), Pointee: f.Type(), Interior: true}
+			if g, ok := fe.eng.voc.Guards[typeName(stt)+"."+f.Name()]; ok && p.Base != "0" {
+				// a guarded field of an object that other goroutines can reach: the guard must hold here
+				// (an object allocated by this very call is not shared yet)
+				this := p
+				this.Pointee = stt
+				cond := fe.invCtx(st, this).evalBool(g.X)
+				fe.oblige(fr, "guard:"+typeName(stt)+"."+f.Name(), g.Props, st.pc, tOr(sx("<", "HW", p.Base), cond), x.Pos(), "guarded field: "+g.Src)
+			}
+			if g, ok := fe.eng.voc.UseGuard[typeName(stt)+"."+f.Name()]; ok && p.Base != "0" {
+				this := p
+				this.Pointee = stt
+				fe.guardPtr[x] = &guardRec{this: this, g: g, name: typeName(stt) + "." + f.Name()}
+			}
 		}
 	case *ssa.Field:
 		sv := fe.val(x.X)
@@ -177,8 +197,19 @@ func (fe *FnExec) execInstr(fr *frame, st *State, in ssa.Instruction) {
 		}
 		fe.regs[x] = tv
 	case *ssa.Select:
+		// channel contents are not modelled; only the case index is constrained (a blocking select picks one of its cases)
 		fe.abstracted["select"]++
-		fe.regs[x] = fe.freshVal(x.Type(), "select")
+		sv := fe.freshVal(x.Type(), "select")
+		if tv, ok := sv.(TupleV); ok && len(tv.E) > 0 {
+			if iv, ok := tv.E[0].(IntV); ok {
+				lo := "0"
+				if !x.Blocking {
+					lo = "(- 1)"
+				}
+				fe.assume(tAnd(sx("<=", lo, iv.T), sx("<", iv.T, tInt(int64(len(x.States))))), "select yields the index of one of its cases")
+			}
+		}
+		fe.regs[x] = sv
 	case *ssa.Send:
 		fe.abstracted["send"]++
 	case *ssa.Go:
@@ -694,15 +725,51 @@ func (fe *FnExec) doConvert(st *State, x *ssa.Convert) Val {
 
 func (fe *FnExec) doGo(fr *frame, st *State, x *ssa.Go) {
 	fe.abstracted["go"]++
-	// the spawned function's effects on captured cells are arbitrary
 	cc := x.Common()
+	site := fr.ords[x]
 	if fv, ok := fe.val(cc.Value).(FuncV); ok {
+		// the spawned literal runs concurrently: what it requires (e.g. a lock being held on its behalf)
+		// must hold when it is spawned
+		if con := fe.eng.contracts[fnKey(fv.Fn)]; con != nil {
+			ctx := &EvalCtx{fe: fe, st: st, old: st, binds: map[string]Val{}, pkg: fe.pkg, conFile: con.File, lazyFn: fv.Fn}
+			for i, b := range fv.Bind {
+				if p, ok := b.(PtrV); ok && i < len(fv.Fn.FreeVars) {
+					ctx.binds[fv.Fn.FreeVars[i].Name()] = fe.load(st, p)
+				}
+			}
+			for _, rq := range con.Requires {
+				g := ctx.evalBool(rq.X)
+				fe.oblige(fr, fmt.Sprintf("%s.pre:%s", site, rq.Label), rq.Props, st.pc, g, x.Pos(), "required by the spawned goroutine: "+rq.Src)
+			}
+		}
+		// the spawned function's effects on captured cells are arbitrary
 		for _, b := range fv.Bind {
 			if p, ok := b.(PtrV); ok && p.Cell != nil {
-				st.cells[p.Cell] = fe.freshVal(p.Cell.Type().(*types.Pointer).Elem(), "go")
+				if writtenFreeVarsHas(fv.Fn, p.Cell) {
+					st.cells[p.Cell] = fe.freshVal(p.Cell.Type().(*types.Pointer).Elem(), "go")
+				}
 			}
 		}
 	}
+	if fr.con != nil {
+		for _, g := range fr.con.Ghosts {
+			if g.After == site {
+				ctx := fe.ctxFor(fr, st)
+				fe.assignLvalue(ctx, st, g.LHS, ctx.eval(g.RHS.E))
+			}
+		}
+	}
+}
+
+func writtenFreeVarsHas(fn *ssa.Function, cell *ssa.Alloc) bool {
+	// conservative: any captured variable the literal may assign to
+	w := writtenFreeVars(fn)
+	for fvv := range w {
+		if fvv.Name() == cell.Comment {
+			return true
+		}
+	}
+	return false
 }
 
 func (fe *FnExec) runDefers(fr *frame, st *State) {
